@@ -192,3 +192,138 @@ func collectAppendsOf(v ssa.Value) []ssa.Instruction {
 	walk(v)
 	return out
 }
+
+// ruleBackgroundDrainStopsInner: an adapter whose Stop hands the wrapped iterator to a background goroutine (to drain
+// it into a cache) must release it on every way out of that goroutine.  A Stop of the inner iterator that sits in a
+// closure given to some other function (singleflight.Do runs it for the first caller only) or on one branch only does
+// not count.
+func ruleBackgroundDrainStopsInner(e *Engine, r *Reporter) {
+	r.Rule("background-drain-stops-inner", "in every goroutine started by an iterator adapter's Stop, each path to the goroutine's end passes a Stop of the wrapped iterator that belongs to the goroutine's own body (a deferred call at its start, or a call on every path)", 1)
+	n := 0
+	for _, fn := range e.Fns {
+		if fn.Parent() != nil || fn.Name() != "Stop" || fn.Signature.Recv() == nil || isTestSupport(pkgOf(fn)) || !isIteratorType(fn.Signature.Recv().Type()) {
+			continue
+		}
+		for _, g := range withClosures(fn) {
+			// g is started with `go`
+			mc := e.parent[g]
+			if mc == nil {
+				continue
+			}
+			isGo := false
+			for _, ref := range *mc.Referrers() {
+				if _, ok := ref.(*ssa.Go); ok {
+					isGo = true
+				}
+			}
+			if !isGo {
+				continue
+			}
+			// does the goroutine (or anything nested in it) stop an iterator-typed field of the receiver?
+			isInnerStop := func(in ssa.Instruction) bool {
+				c, ok := in.(ssa.CallInstruction)
+				if !ok {
+					return false
+				}
+				cc := c.Common()
+				name := ""
+				var recv ssa.Value
+				if cc.IsInvoke() {
+					name, recv = cc.Method.Name(), cc.Value
+				} else if sc := cc.StaticCallee(); sc != nil && len(cc.Args) > 0 {
+					name, recv = sc.Name(), cc.Args[0]
+				}
+				if name != "Stop" || recv == nil {
+					return false
+				}
+				_, isIter := iterElemType(recv.Type())
+				return isIter && strings.Contains(describe_(recv), ".")
+			}
+			any := false
+			for _, h := range withClosures(g) {
+				eachInstr(h, false, func(in ssa.Instruction) {
+					if isInnerStop(in) {
+						any = true
+					}
+				})
+			}
+			if !any {
+				continue
+			}
+			n++
+			// own-body stops: a Defer in g (registered on every path: must-pass from entry) or direct calls on all paths
+			leak := false
+			for _, b := range g.Blocks {
+				ret, ok := b.Instrs[len(b.Instrs)-1].(*ssa.Return)
+				if !ok {
+					continue
+				}
+				if reach, _ := reachable(g, nil, func(in ssa.Instruction) bool { return in == ssa.Instruction(ret) }, cutSpec{instr: isInnerStop}); reach {
+					leak = true
+				}
+			}
+			r.Check(!leak, fname(fn)+" | background goroutine releases the wrapped iterator", e.pos(g.Pos()), "every way out passes a Stop of the wrapped iterator", "the goroutine started by Stop can end without stopping the wrapped iterator (the only Stop calls sit on some branches or inside a closure another function may not run): the datastore iterator of a query that joined an in-flight drain is never released")
+		}
+	}
+	if n == 0 {
+		blind("background-drain-stops-inner: no adapter Stop with a background goroutine found")
+	}
+}
+
+// ruleFilterChainShortCircuits: the filtering adapter evaluates its filters in order and stops at the first one that
+// rejects the entry.  The engines rely on that: their chain ends with a stateful de-duplication filter that records
+// every key it is shown, so it must only ever see entries the earlier filters accepted.
+func ruleFilterChainShortCircuits(e *Engine, r *Reporter) {
+	r.Rule("filter-chain-short-circuits", "in internal/iterator a filter of the chain is invoked for an entry only if every earlier filter accepted it: from one filter invocation the next is reachable only across the `accepted` edge", 1)
+	n := 0
+	for _, fn := range e.Fns {
+		if short(pkgOf(fn)) != "internal/iterator" {
+			continue
+		}
+		eachInstr(fn, false, func(in ssa.Instruction) {
+			c, ok := in.(*ssa.Call)
+			if !ok || c.Call.IsInvoke() || c.Call.StaticCallee() != nil {
+				return
+			}
+			if _, isBuiltin := c.Call.Value.(*ssa.Builtin); isBuiltin {
+				return
+			}
+			// a dynamic call of a func value returning (bool, error), inside a loop
+			sig, ok := c.Call.Value.Type().Underlying().(*types.Signature)
+			if !ok || sig.Results().Len() != 2 || !types.Identical(sig.Results().At(0).Type(), types.Typ[types.Bool]) || !isErrorType(sig.Results().At(1).Type()) {
+				return
+			}
+			if loopHeader(c.Block()) == nil {
+				return
+			}
+			// the invoked function is an element of a slice of filters (a chain), not the adapter's single validator
+			fromChain := derivesFrom(c.Call.Value, func(v ssa.Value) bool {
+				switch x := v.(type) {
+				case *ssa.IndexAddr:
+					_, isSl := derefType(x.X.Type()).Underlying().(*types.Slice)
+					_, isSl2 := x.X.Type().Underlying().(*types.Slice)
+					return isSl || isSl2
+				case *ssa.Index:
+					return true
+				}
+				return false
+			})
+			if !fromChain {
+				return
+			}
+			n++
+			accepted := func(f Fact) bool {
+				if f.Kind != "bool" || !f.Positive {
+					return false
+				}
+				ex, ok := unwrap(f.X).(*ssa.Extract)
+				return ok && ex.Tuple == ssa.Value(c) && ex.Index == 0
+			}
+			ok2, _ := mustPassFrom(fn, c, c, cutSpec{edge: accepted})
+			r.Check(ok2, fname(topLevel(fn))+" | next filter only after acceptance", e.instrPos(in), "the loop continues only on `passes`", "the next filter of the chain is invoked although the previous one rejected the entry: a stateful filter later in the chain (the engines' de-duplication filter) then records entries that were filtered out, and drops a later valid entry with the same key")
+		})
+	}
+	if n == 0 {
+		blind("filter-chain-short-circuits: no filter invocation loop found in internal/iterator")
+	}
+}
